@@ -205,7 +205,17 @@ def checksum_function():
     import textwrap
     from pyab_experiment import experiment_evaluator as evmod
     try:
-        fn = ast.parse(textwrap.dedent(inspect.getsource(evmod.ExperimentEvaluator.recompile))).body[0]
+        cls = evmod.ExperimentEvaluator
+        fn = ast.parse(textwrap.dedent(inspect.getsource(cls.recompile))).body[0]
+        # `recompile` may only take a lock and delegate: follow self-calls to the method that mentions the checksum
+        hops = 0
+        while not any(isinstance(n, ast.Attribute) and n.attr == "_checksum" for n in ast.walk(fn)) and hops < 4:
+            callee = next((n.func.attr for n in ast.walk(fn) if isinstance(n, ast.Call) and isinstance(n.func, ast.Attribute)
+                           and isinstance(n.func.value, ast.Name) and n.func.value.id == "self" and hasattr(cls, n.func.attr)), None)
+            if callee is None:
+                break
+            fn = ast.parse(textwrap.dedent(inspect.getsource(getattr(cls, callee)))).body[0]
+            hops += 1
         param = [a.arg for a in fn.args.args if a.arg != "self"][0]
     except Exception:  # noqa
         return None
